@@ -15,14 +15,14 @@ def main():
     lines = [BEGIN, '']
     lines.append('### 11.1 Independently seeded changes (`seeded/<name>/`: patch.diff, demo.py, notes.md, meta.json)')
     lines.append('')
-    lines.append('| change | property | needs, in order to manifest | caught by (quick tier) with mechanism keys | first version of the check |')
+    lines.append('| change (round) | property | needs, in order to manifest | caught by (quick tier) with mechanism keys | the check as it stood when the change arrived |')
     lines.append('|---|---|---|---|---|')
     for r in seeded:
         name = r['id'][len('seeded-'):]
         meta = json.load(open(os.path.join(HERE, 'seeded', name, 'meta.json')))
         c = r['checks'][r['prop']]
-        lines.append('| %s | %s | %s | `./check %s quick` exit %s: %s | %s |' % (
-            name, r['prop'], meta['needs'].replace('|', '/'), r['prop'], c['rc'], ', '.join(c['keys']) or '-',
+        lines.append('| %s (%s) | %s | %s | `./check %s quick` exit %s: %s | %s |' % (
+            name, meta.get('round', 1), r['prop'], meta['needs'].replace('|', '/'), r['prop'], c['rc'], ', '.join(c['keys']) or '-',
             'caught' if meta['first_run'].startswith('caught') else 'missed; ' + meta['strengthening']))
     lines.append('')
     lines.append('### 11.2 Own deliberate breaks (`pv/selftest/mutants.py`)')
